@@ -1235,6 +1235,24 @@ def r185(ctx, repo):
     it = L.Interp(repo)
     np_ = L.NPModel()
     np_.linalg = L.namespace("np.linalg", inv=_inv, det=_det)
+    # dtype requests when the spill matrix is built (the model is exact;
+    # a request for less than double precision is recorded)
+    narrow = []
+    for nm in ("float32", "float16", "single", "half", "int32", "int16",
+               "int8", "uint8", "uint16", "uint32"):
+        setattr(np_, nm, nm)
+    np_.double = np_.float_ = "float64"
+    plain_array = np_.array
+
+    def array(a, dtype=None, *r, **k):
+        if isinstance(dtype, str) and dtype in (
+                "float32", "float16", "single", "half", "int32", "int16",
+                "int8", "uint8", "uint16", "uint32", "f4", "f2"):
+            narrow.append(dtype)
+        elif dtype is int:
+            narrow.append("int")
+        return plain_array(a)
+    np_.array = np_.asarray = array
     ext = {"np": np_}
     for st in repo.tree(CT).body:
         if isinstance(st, ast.ImportFrom) and st.level == 0 and st.module in (
@@ -1295,6 +1313,14 @@ def r185(ctx, repo):
                + (f"{res[0]} {res[1]}" if res[0] != "ok" else "different "
                   "rational function") + ")", node=cc_node,
                label=f"inverts the modelled spill-over, channel {k}")
+    ctx.ob("R18.5", not narrow,
+           "the spill matrix is built and inverted in double precision"
+           if not narrow else
+           f"the spill matrix is built with dtype {sorted(set(narrow))}: "
+           f"coefficients are rounded to single precision before the "
+           f"inversion, the compensation no longer inverts the documented "
+           f"spill-over within float64 accuracy", node=gm_node,
+           label="spill matrix in double precision")
     # the whole domain: every non-negative *invertible* spill matrix, also
     # with a negative determinant (strong mutual spill), must be inverted -
     # numeric grid, exact arithmetic
@@ -2710,4 +2736,21 @@ TWINS = list(TWINS) + [
     ("principal inertia ratio: float32 array via np.full", INERT,
      (_PRNC_ALLOC,
       "    inert_ratio_prnc = np.full(length, np.nan, dtype=np.float32)\n")),
+]
+
+# seed /verif/seeded/C18_15
+MUTANTS = list(MUTANTS) + [
+    ("spill matrix built in single precision (seeded)", CT,
+     ("                          [ct31, ct32, ct33],\n"
+      "                          ])",
+      "                          [ct31, ct32, ct33],\n"
+      "                          ], dtype=np.float32)"), "R18.5"),
+]
+
+TWINS = list(TWINS) + [
+    ("spill matrix built explicitly as float64", CT,
+     ("                          [ct31, ct32, ct33],\n"
+      "                          ])",
+      "                          [ct31, ct32, ct33],\n"
+      "                          ], dtype=np.float64)")),
 ]
